@@ -12,7 +12,13 @@ def code_hash(c):
 
 
 def strip_text(lines):
-    return [l for l in lines if not l.startswith(';') and l.strip() != '']
+    # instruction stream without comment lines and without the cycle annotations of --insert-code
+    out = []
+    for l in lines:
+        if l.startswith(';'): continue
+        l = l.split(';')[0].rstrip()
+        if l.strip() != '': out.append(' '.join(l.split()) if l[0].isspace() else l)
+    return out
 
 
 def same_text(ca, cb):
